@@ -1751,6 +1751,25 @@ func (g *IG) flattenCase(c RetCase, blk *ssa.BasicBlock, depth int) []RetCase {
 				}
 			} else {
 				nc.Vals[j] = v
+				// a returned comparison of a merged value with nil (return err == nil)
+				// has, on this edge, the value the comparison has for the operand
+				if cmp, ok := v.(*ssa.BinOp); ok && (cmp.Op == token.EQL || cmp.Op == token.NEQ) {
+					for _, pr := range [][2]ssa.Value{{cmp.X, cmp.Y}, {cmp.Y, cmp.X}} {
+						phi, isPhi := pr[0].(*ssa.Phi)
+						if !isPhi || phi.Block() != blk || !isNilConst(pr[1]) {
+							continue
+						}
+						op := phi.Edges[i]
+						switch {
+						case isNilConst(op):
+							nc.Vals[j] = boolConst(cmp.Op == token.EQL)
+							fresh = true
+						case g.M.nonNilErrorGlobal(op):
+							nc.Vals[j] = boolConst(cmp.Op == token.NEQ)
+							fresh = true
+						}
+					}
+				}
 			}
 		}
 		if carried && !fresh {
@@ -2292,4 +2311,16 @@ func lowerBoundOf(v ssa.Value, stack map[*ssa.Phi]bool, depth int) (int64, bool)
 		return lo, true
 	}
 	return 0, false
+}
+
+var boolConsts = map[bool]*ssa.Const{}
+
+// boolConst returns the constant true / false (one value each).
+func boolConst(b bool) *ssa.Const {
+	if c, ok := boolConsts[b]; ok {
+		return c
+	}
+	c := ssa.NewConst(constant.MakeBool(b), types.Typ[types.Bool])
+	boolConsts[b] = c
+	return c
 }
